@@ -118,6 +118,15 @@ CONC = {
                 rule=SLICE_JOB_RULE, trusted_base=TB_CONC,
                 assumptions=['"they do return" is progress (C03: every accepted job is eventually closed) plus C05_wait_stays_enabled',
                              'Result()/Err() read the per-job response channel, which the finisher fills before it closes the job (order fixed by program order of the pool goroutine; monitored)']),
+    'C08': dict(module='Properties.C08', file='Properties/C08.v', slices=['batch', 'job'],
+                families=['batch'],
+                quick_episodes=900, thorough_episodes=10000,
+                rule=SLICE_JOB_RULE + '; per batch the log is also projected onto the events of coq/SliceBatch.v (counter loads / compare-and-swaps, wait group, '
+                     'stream sends / close / receives) and replayed; batches of size 0..6 on all three worker kinds and both in-memory queue kinds, '
+                     'closed queue (all items rejected), purge during the batch, stream readers and batch Wait callers',
+                trusted_base=TB_CONC,
+                assumptions=['each item calls WgCounter.Done exactly once (per-item protocol: SliceJob theorems C10_closed_once / C01)',
+                             'tagging of results with the item id and value fidelity: monitored (stream contents vs. a pure function of the item), not modelled']),
     'C10': dict(module='Properties.C10', file='Properties/C10.v', slices=['job'],
                 families=['cancel', 'batch', 'lifecycle'],
                 quick_episodes=350, thorough_episodes=4000,
